@@ -9,6 +9,10 @@ length_sweep  every numeral length 1 .. capacity+2
 wide          n > 20 and the 8192-bit instantiation of every digit type: reduced set, every entry point, both arms
 """
 from .common import *
+
+# other public routes to this property's operations (check.py step 2d): the neighbour generator's requests whose
+# operation matches are part of this run, answered by the neighbour's harness bin
+NEIGHBOURS = {"C17": r"from_str\b", "C18": r"nt_from_str_radix\b"}
 from . import widthsweep as _ws
 
 HARNESS_BINS_THOROUGH = ["widths"]
